@@ -43,6 +43,7 @@ type gen struct {
 	skip    string            // reason the current message cannot be mirrored
 	depth   int
 	path    []string          // field path inside the message being built
+	hasStr  bool              // the message carries a string or byte string somewhere
 }
 
 func (g *gen) imp(path string) string {
@@ -134,8 +135,11 @@ func (g *gen) value(gt, pt types.Type) (string, string) {
 				g.skip = fmt.Sprintf("MISMATCH: %s: kinds differ: %s / %s", strings.Join(g.path, "."), gt, pt)
 				return "nil", "nil"
 			}
-			lit := strconv.Quote(fmt.Sprintf("s%d", g.n+1))
+			// short on most paths; on the path that selects "long" every string and byte string of the message
+			// is longer than 127 bytes, so that every length prefix around it needs a second varint byte
+			lit := fmt.Sprintf("c20S(%s, long)", strconv.Quote(fmt.Sprintf("s%d", g.n+1)))
 			g.n++
+			g.hasStr = true
 			return fmt.Sprintf("%s(%s)", g.typeStr(gt), lit), fmt.Sprintf("%s(%s)", g.typeStr(pt), lit)
 		case gu.Kind() == types.Bool:
 			v := g.fresh("b")
@@ -187,8 +191,9 @@ func (g *gen) value(gt, pt types.Type) (string, string) {
 			return "nil", "nil"
 		}
 		if b, ok := gu.Elem().Underlying().(*types.Basic); ok && b.Kind() == types.Uint8 {
-			lit := fmt.Sprintf("[]byte{1, 2, %d}", 3+g.n%200)
+			lit := fmt.Sprintf("c20B([]byte{1, 2, %d}, long)", 3+g.n%200)
 			g.n++
+			g.hasStr = true
 			return fmt.Sprintf("%s(%s)", g.typeStr(gt), lit), fmt.Sprintf("%s(%s)", g.typeStr(pt), lit)
 		}
 		var ge, pe []string
@@ -401,7 +406,7 @@ func main() {
 				missing = append(missing, pr.alias+"."+name)
 				continue
 			}
-			g.decls, g.skip, g.n, g.depth, g.path, g.leaves = nil, "", 0, 0, []string{pr.alias, name}, 0
+			g.decls, g.skip, g.n, g.depth, g.path, g.leaves, g.hasStr = nil, "", 0, 0, []string{pr.alias, name}, 0, false
 			ga, pa := g.structLit(gobj.Type(), named)
 			if g.skip != "" {
 				skipped = append(skipped, fmt.Sprintf("%s.%s: %s", pr.alias, name, g.skip))
@@ -410,8 +415,15 @@ func main() {
 			fn := fmt.Sprintf("VerifC20_%s_%s", pr.alias, name)
 			fmt.Fprintf(&body, "func %s() {\n\tverifExpect(\"compared\")\n", fn)
 			// one numeric / boolean leaf is symbolic per path, the others keep a fixed value
-			if g.leaves > 0 {
-				fmt.Fprintf(&body, "\tsel := verifChoice(\"symbolicLeaf\", %d)\n", g.leaves)
+			nsel := g.leaves
+			if g.hasStr {
+				nsel++
+			}
+			if nsel > 0 {
+				fmt.Fprintf(&body, "\tsel := verifChoice(\"symbolicLeaf\", %d)\n", nsel)
+			}
+			if g.hasStr {
+				fmt.Fprintf(&body, "\tlong := sel == %d\n", g.leaves)
 			}
 			for _, d := range g.decls {
 				fmt.Fprintf(&body, "\t%s\n", d)
